@@ -582,6 +582,7 @@ type coordLedMember struct {
 	SyncGen     int32     // ... in this generation ...
 	SyncAssign  map[string][]int32
 	FoSinceJoin bool // a failover happened after its last join
+	ResubGen    int32 // generation in which it re-joined with a different subscription and no new generation was started (0 = none)
 }
 
 // coordLedger is the reference state shared by the oracles. Membership itself is read
@@ -1177,6 +1178,9 @@ func (l *coordLedger) update(w *coordWorld, st *coordStep) {
 				m = &coordLedMember{}
 				l.M[r.Member] = m
 			}
+			if m.JoinedGen == r.Gen && r.Gen != 0 && strings.Join(m.Subs, ",") != strings.Join(st.ReqSubs, ",") {
+				m.ResubGen = r.Gen
+			}
 			m.Subs = append([]string(nil), st.ReqSubs...)
 			m.JoinedGen = r.Gen
 			m.LastRefresh = st.At
@@ -1309,7 +1313,7 @@ func (w *coordWorld) Canon() string {
 			if lm.HasSync && lm.SyncGen == p.Gen {
 				sy = coordAssignString(lm.SyncAssign)
 			}
-			fmt.Fprintf(&b, " ~%v j%t r%s s%s f%t", lm.Subs, lm.JoinedGen == p.Gen, coordCapAge(now, lm.LastRefresh, coordSessionTO), sy, lm.FoSinceJoin)
+			fmt.Fprintf(&b, " ~%v j%t r%s s%s f%t c%t", lm.Subs, lm.JoinedGen == p.Gen, coordCapAge(now, lm.LastRefresh, coordSessionTO), sy, lm.FoSinceJoin, lm.ResubGen == p.Gen && p.Gen != 0)
 		} else {
 			b.WriteString(" ~none")
 		}
